@@ -106,7 +106,21 @@ def tree_case(D):
         if sibs and trees.is_package_dir({'dirs': dirs}, d):
             sibling.append([f, os.path.basename(D.choice(sibs))[:-3]])
     second = D.choice(['none', 'none', 'before', 'after'])
-    return {'tree': {'top': 't', 'dirs': dirs, 'files': files}, 'raising': raising, 'sibling': sibling,
+    # packages whose __init__ re-exports a function named like the module that defines it (from .solve import solve): the
+    # package attribute of that name is then the function, the module is still what a path import has to return
+    reexport = []
+    sib_files = {f for f, _s in sibling}
+    for rel, has_init in dirs:
+        init = rel + '/__init__.py'
+        if not has_init or init in raising or init in sib_files or not D.chance(1, 3):
+            continue
+        stems = [os.path.basename(f)[:-3] for f in pyfiles if os.path.dirname(f) == rel and f not in raising and f not in sib_files]
+        stems = [s_ for s_ in stems if s_ not in ('__init__', '__main__') and not any(r == rel + '/' + s_ for r, _h in dirs) and
+                 not any(rel + '/' + s_ + e in files for e in mach.EXTENSION_SUFFIXES)]
+        if stems:
+            reexport.append([init, D.choice(stems)])
+    return {'tree': {'top': 't', 'dirs': dirs, 'files': files}, 'raising': raising, 'sibling': sibling, 'reexport': reexport,
+            'shadowed_root': second != 'none' and D.chance(1, 2),
             'second_root': second, 'index': D.choice([-1, 0]), 'root_has_init': D.chance(1, 6), 'root_on_path': D.chance(1, 4),
             'symlink': D.chance(1, 4)}
 
@@ -157,13 +171,22 @@ def check_case(case, ctx):
         raising = set(case.get('raising', []))
         sibling = {f: s for f, s in case.get('sibling', [])}
 
+        reexport = {f: s_ for f, s_ in case.get('reexport', [])}
+        exported = {os.path.dirname(f) + '/' + s_ + '.py': s_ for f, s_ in reexport.items()}
+
         def content(rel):
             if rel in raising:
                 return "MARK = {!r}\nraise RuntimeError('import of {} fails')\n".format(rel, rel)
             if rel in sibling:
                 return "MARK = {!r}\nfrom . import {} as _sib\n".format(rel, sibling[rel])
+            if rel in reexport:
+                return "MARK = {!r}\nfrom .{} import {}\n".format(rel, reexport[rel], reexport[rel])
+            if rel in exported:
+                return 'MARK = {!r}\n\n\ndef {}():\n    return MARK\n'.format(rel, exported[rel])
             return 'MARK = {!r}\n'.format(rel)
         trees.write_tree(tree, root, content)
+        if reexport and ctx is not None:
+            ctx.tag('tree:init_reexports_name_of_submodule')
         root_has_init = bool(case.get('root_has_init'))
         if root_has_init:
             # the search directory is itself a package directory (a tests/ folder with __init__.py on sys.path): the
@@ -182,6 +205,15 @@ def check_case(case, ctx):
         elif case.get('second_root') == 'after':
             roots = [root, other]
         present, absent = candidate_names(tree)
+        if case.get('shadowed_root') and len(roots) == 2 and not case.get('symlink'):
+            # the second search directory holds the very same names: the order of the search path decides, whatever was
+            # resolved before (every name is first looked up with the later directory alone)
+            trees.write_tree(tree, other, lambda rel: 'MARK = {!r}\n'.format('other/' + rel))
+            with sandbox.quiet():
+                for name in present:
+                    utils.modname_to_modpath(name, hide_init=False, sys_path=[roots[-1]])
+            if ctx is not None:
+                ctx.tag('tree:same_names_in_two_roots')
         alias_names = []
         if case.get('symlink'):
             # a package (or module file) that is reached through a symbolic link under another name: for the interpreter
